@@ -87,7 +87,9 @@ def world_facts(settings, ident):
     sockf = os.path.join(sock_root, "tacd_%s.sock" % ident)
     live = 0
     out = subprocess.run(["pgrep", "-x", "-a", "tacd"], capture_output=True, text=True).stdout.splitlines()
-    live = len([l for l in out if ("--domain %s " % ident) in l + " "])
+    # a responder belongs to this scenario if it was started with this scenario's pid file (scenarios for the same
+    # identifier run side by side, each under its own roots; the shared-default ones run one at a time)
+    live = len([l for l in out if (" %s " % pidf) in l + " "])
     return {"proofs": proofs, "pids": 1 if os.path.exists(pidf) else 0, "socks": 1 if os.path.exists(sockf) else 0, "live": live}
 
 
@@ -112,11 +114,12 @@ def scenario(i, group, git, setvars, ident, root, issuances):
     port = 20000 + (os.getpid() % 2000) * 10 + i % 10 + (i // 10) * 37 % 9000
     if setvars:
         settings.update({"HTTP_ROOT": os.path.join(scratch, "www"), "TACD_PID_ROOT": os.path.join(scratch, "run"),
-                         "TACD_SOCK_ROOT": os.path.join(scratch, "run"), "TACD_HOST": "127.0.0.1", "TACD_PORT": str(port)})
+                         "TACD_SOCK_ROOT": os.path.join(scratch, "sock"), "TACD_HOST": "127.0.0.1", "TACD_PORT": str(port)})   # every variable its own value
         for k in ("HTTP_ROOT", "TACD_PID_ROOT", "TACD_SOCK_ROOT", "TACD_HOST", "TACD_PORT"):
             cenv[k] = settings[k]
         os.makedirs(settings["HTTP_ROOT"], exist_ok=True)
         os.makedirs(settings["TACD_PID_ROOT"], exist_ok=True)
+        os.makedirs(settings["TACD_SOCK_ROOT"], exist_ok=True)
     else:
         os.makedirs("/var/www", exist_ok=True)
         settings["TACD_PORT"] = None
